@@ -1043,6 +1043,294 @@ static void do_mps(int block) {
 	}
 }
 
+/* ==================================================================== homomorphic signatures */
+#define HS 3            /* signers */
+#define HL 3            /* labels per signer */
+static char hdata0[MAXM], hdata[MAXM], hid0[HS][64], hid[HS][64], htag[HL][64];
+static dig_t HF0[HS][HL], HF[HS][HL];
+static bn_t HMSG[HS][HL], HSK[HS], HMU[HS], HM, LPK[HS];
+static g1_t HA[HS][HL], HSIG;
+static g2_t HPK[HS];
+static int HHPK[HS];
+static size_t hS, hL, hflen[HS];
+
+/* data=<hex>  id<j>=<hex>  f:<j>:<l>:<hex value>  (strings must not contain a zero byte) */
+static int lhs_hook(const char *op) {
+	if (strncmp(op, "data=", 5) == 0) { size_t l = tok_bytes(op + 5, (uint8_t *)hdata); hdata[l] = 0; return 1; }
+	if (op[0] == 'i' && op[1] == 'd' && op[2] >= '0' && op[2] <= '9' && op[3] == '=') {
+		size_t j = (size_t)(op[2] - '0'), l;
+		if (j >= hS) return 0;
+		l = vh_hex2bytes(op + 4, (uint8_t *)hid[j], 63, NULL); hid[j][l] = 0;
+		return 1;
+	}
+	if (op[0] == 'f' && op[1] == ':') {
+		unsigned j = 0, l = 0; unsigned long v = 0;
+		if (sscanf(op + 2, "%u:%u:%lx", &j, &l, &v) != 3 || j >= hS || l >= hL) return 0;
+		HF[j][l] = (dig_t)v;
+		return 1;
+	}
+	if (strncmp(op, "flen:", 5) == 0) {
+		unsigned j = 0, l = 0;
+		if (sscanf(op + 5, "%u:%u", &j, &l) != 2 || j >= hS || l > hL) return 0;
+		hflen[j] = l;
+		return 1;
+	}
+	return 0;
+}
+static void lhs_fresh(void) {
+	size_t j;
+	fresh();
+	strcpy(hdata, hdata0);
+	for (j = 0; j < hS; j++) { strcpy(hid[j], hid0[j]); hflen[j] = hL; }
+	memcpy(HF, HF0, sizeof(HF));
+}
+static void lhs_params(int ti) {
+	size_t j, l, n;
+	hS = (size_t)atoi(vh_tok[ti]); hL = (size_t)atoi(vh_tok[ti + 1]);
+	if (hS < 1 || hS > HS || hL < 1 || hL > HL) { fprintf(stderr, "lhs parameters\n"); exit(2); }
+	n = tok_bytes(vh_tok[ti + 2], (uint8_t *)hdata0); hdata0[n] = 0;
+	if (strlen(hdata0) != n) { fprintf(stderr, "lhs: zero byte in the data string\n"); exit(2); }
+	for (j = 0; j < hS; j++) snprintf(hid0[j], sizeof(hid0[j]), "user-%c", (char)('A' + j));
+	for (l = 0; l < hL; l++) snprintf(htag[l], sizeof(htag[l]), "t%c", (char)('0' + l));
+	for (j = 0; j < hS; j++) for (l = 0; l < hL; l++) {
+		dig_t t;
+		rand_bytes((uint8_t *)&t, sizeof(dig_t));
+		HF0[j][l] = (t & 0xffffff) | 1;
+	}
+}
+static void lhs_fields(void) {
+	size_t j, l;
+	vh_bytes("data", (const uint8_t *)hdata, strlen(hdata));
+	fputs(",\"ids\":[", vh_out);
+	for (j = 0; j < hS; j++) { if (j) fputc(',', vh_out); vh_bytes_raw((const uint8_t *)hid[j], strlen(hid[j])); }
+	fputs("],\"tags\":[", vh_out);
+	for (l = 0; l < hL; l++) { if (l) fputc(',', vh_out); vh_bytes_raw((const uint8_t *)htag[l], strlen(htag[l])); }
+	fputs("],\"f\":[", vh_out);
+	for (j = 0; j < hS; j++) {
+		if (j) fputc(',', vh_out);
+		fputc('[', vh_out);
+		for (l = 0; l < hflen[j]; l++) { if (l) fputc(',', vh_out); vh_digs_raw(&HF[j][l], 1); }
+		fputc(']', vh_out);
+	}
+	fputc(']', vh_out);
+}
+
+/* ---- multi-key linearly homomorphic signatures ---- */
+static void do_mklhs(void) {
+	int err, ret = -1, i, crash = 0, code2 = 0;
+	size_t j, l, fmax;
+	const char *ids[HS], *tags[HL];
+	const dig_t *fs[HS];
+	g1_t t;
+	if (!set_pairing()) { bad_pairing(); return; }
+	reseed(vh_tok[1]);
+	lhs_params(2);
+	g1_null(t); g1_new(t);
+	for (j = 0; j < hS; j++) {
+		VH_TRY(err, ret = cp_mklhs_gen(HSK[j], HPK[j]));
+		HHPK[j] = 1; bn_copy(LPK[j], HSK[j]);
+	}
+	pc_gen_event("mklhs_gen", ret, err);
+	g1_set_infty(HSIG); bn_zero(HM);
+	for (j = 0; j < hS && !err && ret == RLC_OK; j++) {
+		for (l = 0; l < hL && !err && ret == RLC_OK; l++) {
+			bn_rand_mod(HMSG[j][l], N);
+			VH_TRY(err, ret = cp_mklhs_sig(HA[j][l], HMSG[j][l], hdata0, hid0[j], htag[l], HSK[j]));
+		}
+		cp_mklhs_fun(HMU[j], (const bn_t *)HMSG[j], HF0[j], hL);
+		cp_mklhs_evl(t, (const g1_t *)HA[j], HF0[j], hL);
+		g1_add(HSIG, HSIG, t);
+		bn_add(HM, HM, HMU[j]); bn_mod(HM, HM, N);
+	}
+	g1_norm(HSIG, HSIG);
+	vh_begin("mklhs_sig"); vh_int("ret", ret); vh_int("err", err); vh_int("code", vh_code()); vh_end();
+	comp_reset();
+	reg_ep("sig", HSIG); reg_bn("m", HM);
+	for (j = 0; j < hS; j++) {
+		regi("mu", (int)j, "", K_BN, HMU[j], NULL, NULL);
+		regi("pk", (int)j, "", K_G2, HPK[j], &HHPK[j], LPK[j]);
+	}
+	comp_save();
+	for (i = 5; i < vh_ntok; i++) {
+		lhs_fresh(); apply_mut(vh_tok[i], lhs_hook);
+		for (j = 0; j < hS; j++) { ids[j] = hid[j]; fs[j] = HF[j]; }
+		for (l = 0; l < hL; l++) tags[l] = htag[l];
+		ret = -1; hm_n = 0; vh_code(); crash = 0;
+		fmax = 0;
+		for (j = 0; j < hS; j++) if (hflen[j] > fmax) fmax = hflen[j];
+		if (hS > fmax) {
+			/* the verifier normalises hS points of an array of fmax: run it in a child, the hash-to-curve calls are
+			 * reported through the pipe as well */
+			int fd[2], st = 0, res[4] = { -1, 0, 0, 0 };
+			pid_t pid;
+			fflush(vh_out);
+			if (pipe(fd) != 0) exit(2);
+			pid = fork();
+			if (pid < 0) exit(2);
+			if (pid == 0) {
+				int e2, r2 = -1, k;
+				signal(SIGSEGV, SIG_DFL); signal(SIGBUS, SIG_DFL); signal(SIGABRT, SIG_DFL); signal(SIGILL, SIG_DFL); signal(SIGFPE, SIG_DFL);
+				close(fd[0]);
+				VH_TRY(e2, r2 = cp_mklhs_ver(HSIG, HM, (const bn_t *)HMU, hdata, ids, tags, fs, hflen, (const g2_t *)HPK, hS));
+				res[0] = r2; res[1] = e2; res[2] = vh_code(); res[3] = hm_n;
+				if (write(fd[1], res, sizeof(res)) < 0) {}
+				for (k = 0; k < hm_n && k < NHM; k++) {
+					if (write(fd[1], &hm_len[k], sizeof(size_t)) < 0 || write(fd[1], hm_in[k], hm_len[k]) < 0 || write(fd[1], hm_out[k], sizeof(ep_t)) < 0) {}
+				}
+				_exit(0);
+			}
+			close(fd[1]);
+			{
+				FILE *pf = fdopen(fd[0], "rb");
+				int k;
+				if (!pf || fread(res, sizeof(res), 1, pf) != 1) { res[0] = -1; res[1] = 0; res[2] = 0; res[3] = 0; }
+				hm_n = res[3];
+				for (k = 0; k < hm_n && k < NHM; k++) {
+					if (fread(&hm_len[k], sizeof(size_t), 1, pf) != 1 || hm_len[k] > 512 || fread(hm_in[k], 1, hm_len[k], pf) != hm_len[k]
+							|| fread(hm_out[k], sizeof(ep_t), 1, pf) != 1) { hm_n = k; break; }
+				}
+				if (pf) fclose(pf); else close(fd[0]);
+			}
+			waitpid(pid, &st, 0);
+			if (WIFSIGNALED(st)) crash = WTERMSIG(st);
+			else if (!WIFEXITED(st) || WEXITSTATUS(st) != 0) crash = 255;
+			ret = res[0]; err = res[1]; code2 = res[2];
+		} else {
+			VH_TRY(err, ret = cp_mklhs_ver(HSIG, HM, (const bn_t *)HMU, hdata, ids, tags, fs, hflen, (const g2_t *)HPK, hS));
+			code2 = vh_code();
+		}
+		vh_begin("mklhs_ver"); pc_hdr();
+		vh_int("crash", crash);
+		vh_ep("sig", HSIG); vh_bn("m", HM); bn_list("mu", HMU, hS);
+		g2l_list("pk", HPK, HHPK, LPK, hS);
+		lhs_fields(); vh_maps();
+		vh_str("mut", vh_tok[i]);
+		vh_int("honest", strcmp(vh_tok[i], "honest") == 0);
+		vh_int("ret", ret); vh_int("err", err); vh_int("code", code2);
+		vh_end();
+	}
+	g1_free(t);
+}
+
+/* ---- context-hiding multi-key linearly homomorphic signatures (BLS for the tag signatures) ---- */
+#define PLEN 16
+static uint8_t CPRF[HS][PLEN];
+static bn_t CX[HS][HL], CD[HS], CSK[HS], LCZ[HS], LCY[HS], LCPK[HS], LCS, ETA, XF;
+static gt_t CHS[HS][RLC_TERMS];
+static g1_t CH, CSG[HS], CA[HS][HL], CC[HS][HL], CR[HS][HL], CAS[HS], CCS[HS], CRR;
+static g2_t CZ[HS], CY[HS], CPK[HS], CSS[HS][HL], CSSUM;
+static int HCZ[HS], HCY[HS], HCPK[HS], HCS;
+static void do_cmlhs(void) {
+	int err, ret = -1, i, crash, code2, label[HL];
+	size_t j, l;
+	const dig_t *fs[HS];
+	const gt_t *hsp[HS];
+	g1_t t1;
+	g2_t t2;
+	if (!set_pairing()) { bad_pairing(); return; }
+	reseed(vh_tok[1]);
+	if (atoi(vh_tok[2]) != 1) { fprintf(stderr, "cmlhs: only the BLS variant is driven\n"); exit(2); }
+	lhs_params(3);
+	g1_null(t1); g1_new(t1); g2_null(t2); g2_new(t2);
+	nrnd = 0; rnd_on = 1; cp_cmlhs_init(CH); rnd_on = 0;
+	bn_copy(ETA, rnd[0]);                                   /* h = [eta]G1 */
+	for (j = 0; j < hS; j++) {
+		VH_TRY(err, ret = cp_cmlhs_gen(CX[j], CHS[j], hL, CPRF[j], PLEN, CSK[j], CPK[j], CD[j], CY[j], 1));
+		HCY[j] = HCPK[j] = 1; bn_copy(LCY[j], CD[j]); bn_copy(LCPK[j], CSK[j]);
+	}
+	pc_gen_event("cmlhs_gen", ret, err);
+	g1_set_infty(CRR); g2_set_infty(CSSUM); bn_zero(HM); bn_zero(LCS); bn_zero(XF);
+	for (j = 0; j < hS && !err && ret == RLC_OK; j++) {
+		for (l = 0; l < hL && !err && ret == RLC_OK; l++) {
+			label[l] = (int)l;
+			bn_rand_mod(HMSG[j][l], N);
+			nrnd = 0; rnd_on = 1;
+			VH_TRY(err, ret = cp_cmlhs_sig(CSG[j], CZ[j], CA[j][l], CC[j][l], CR[j][l], CSS[j][l], HMSG[j][l], hdata0, (int)l,
+				CX[j][l], CH, CPRF[j], PLEN, CD[j], CSK[j], 1));
+			rnd_on = 0;
+			/* draws of the signer: r, s; S = -[s]G2: the logarithm of the combined S is - sum f s */
+			bn_mul_dig(T, rnd[1], HF0[j][l]); bn_add(LCS, LCS, T); bn_mod(LCS, LCS, N);
+			bn_mul_dig(T, HMSG[j][l], HF0[j][l]); bn_add(HM, HM, T); bn_mod(HM, HM, N);
+			bn_mul_dig(T, CX[j][l], HF0[j][l]); bn_add(XF, XF, T); bn_mod(XF, XF, N);
+		}
+		/* z_j = [F_K(data)]G2: the logarithm is recomputed by the spec (HMAC-SHA-256); here only the ghost copy */
+		md_hmac(buf, (const uint8_t *)hdata0, strlen(hdata0), CPRF[j], PLEN);
+		bn_read_bin(LCZ[j], buf, RLC_MD_LEN); bn_mod(LCZ[j], LCZ[j], N); HCZ[j] = 1;
+		cp_cmlhs_fun(CAS[j], CCS[j], (const g1_t *)CA[j], (const g1_t *)CC[j], HF0[j], hL);
+		cp_cmlhs_evl(t1, t2, (const g1_t *)CR[j], (const g2_t *)CSS[j], HF0[j], hL);
+		g1_add(CRR, CRR, t1); g2_add(CSSUM, CSSUM, t2);
+	}
+	g1_norm(CRR, CRR); g2_norm(CSSUM, CSSUM);
+	if (!bn_is_zero(LCS)) bn_sub(LCS, N, LCS);
+	HCS = 1;
+	vh_begin("cmlhs_sig"); vh_int("ret", ret); vh_int("err", err); vh_int("code", vh_code()); vh_end();
+	comp_reset();
+	reg_ep("r", CRR); reg_g2("s", CSSUM, &HCS, LCS); reg_bn("m", HM); reg_ep("h", CH);
+	for (j = 0; j < hS; j++) {
+		regi("sig", (int)j, "", K_EP, CSG[j], NULL, NULL); regi("a", (int)j, "", K_EP, CAS[j], NULL, NULL); regi("c", (int)j, "", K_EP, CCS[j], NULL, NULL);
+		regi("z", (int)j, "", K_G2, CZ[j], &HCZ[j], LCZ[j]); regi("y", (int)j, "", K_G2, CY[j], &HCY[j], LCY[j]);
+		regi("pk", (int)j, "", K_G2, CPK[j], &HCPK[j], LCPK[j]);
+	}
+	comp_save();
+	for (i = 6; i < vh_ntok; i++) {
+		lhs_fresh(); apply_mut(vh_tok[i], lhs_hook);
+		for (j = 0; j < hS; j++) { fs[j] = HF[j]; hsp[j] = (const gt_t *)CHS[j]; }
+		/* the exponent of the G_T part: sum f_jl x_jl over the submitted coefficients (the elements hs_jl = e(G1, G2)^x_jl
+		 * come from key generation; they are bound to their ghost exponents x_jl, see the evidence) */
+		bn_zero(XF);
+		for (j = 0; j < hS; j++) for (l = 0; l < hflen[j]; l++) { bn_mul_dig(T, CX[j][l], HF[j][l]); bn_add(XF, XF, T); bn_mod(XF, XF, N); }
+		ret = -1; hm_n = 0; vh_code(); crash = 0;
+		if (g2_is_infty(CSSUM)) {
+			/* the verifier sizes its buffer with the encoding of s and writes the encoding of z_i: run it in a child */
+			int fd[2], st = 0, res[3] = { -1, 0, 0 };
+			pid_t pid;
+			fflush(vh_out);
+			if (pipe(fd) != 0) exit(2);
+			pid = fork();
+			if (pid < 0) exit(2);
+			if (pid == 0) {
+				int e2, r2 = -1;
+				signal(SIGSEGV, SIG_DFL); signal(SIGBUS, SIG_DFL); signal(SIGABRT, SIG_DFL); signal(SIGILL, SIG_DFL); signal(SIGFPE, SIG_DFL);
+				close(fd[0]);
+				VH_TRY(e2, r2 = cp_cmlhs_ver(CRR, CSSUM, (const g1_t *)CSG, (const g2_t *)CZ, (const g1_t *)CAS, (const g1_t *)CCS, HM, hdata, CH,
+					label, hsp, fs, hflen, (const g2_t *)CY, (const g2_t *)CPK, hS, 1));
+				res[0] = r2; res[1] = e2; res[2] = vh_code();
+				if (write(fd[1], res, sizeof(res)) < 0) {}
+				_exit(0);
+			}
+			close(fd[1]);
+			if (read(fd[0], res, sizeof(res)) != (ssize_t)sizeof(res)) { res[0] = -1; res[1] = 0; res[2] = 0; }
+			close(fd[0]);
+			waitpid(pid, &st, 0);
+			if (WIFSIGNALED(st)) crash = WTERMSIG(st);
+			else if (!WIFEXITED(st) || WEXITSTATUS(st) != 0) crash = 255;
+			ret = res[0]; err = res[1]; code2 = res[2];
+			hm_n = 0;
+		} else {
+			VH_TRY(err, ret = cp_cmlhs_ver(CRR, CSSUM, (const g1_t *)CSG, (const g2_t *)CZ, (const g1_t *)CAS, (const g1_t *)CCS, HM, hdata, CH,
+				label, hsp, fs, hflen, (const g2_t *)CY, (const g2_t *)CPK, hS, 1));
+			code2 = vh_code();
+		}
+		vh_begin("cmlhs_ver"); pc_hdr();
+		vh_int("crash", crash);
+		vh_ep("r", CRR); vh_g2l("s", CSSUM, HCS, LCS); vh_bn("m", HM); vh_ep("h", CH);
+		fputs(",\"sig\":[", vh_out); for (j = 0; j < hS; j++) { if (j) fputc(',', vh_out); vh_ep_raw(CSG[j]); }
+		fputs("],\"a\":[", vh_out); for (j = 0; j < hS; j++) { if (j) fputc(',', vh_out); vh_ep_raw(CAS[j]); }
+		fputs("],\"c\":[", vh_out); for (j = 0; j < hS; j++) { if (j) fputc(',', vh_out); vh_ep_raw(CCS[j]); }
+		fputc(']', vh_out);
+		g2l_list("z", CZ, HCZ, LCZ, hS); g2l_list("y", CY, HCY, LCY, hS); g2l_list("pk", CPK, HCPK, LCPK, hS);
+		fputs(",\"prf\":[", vh_out); for (j = 0; j < hS; j++) { if (j) fputc(',', vh_out); vh_bytes_raw(CPRF[j], PLEN); }
+		fputc(']', vh_out);
+		vh_bn("xf", XF);
+		lhs_fields(); vh_maps();
+		vh_str("mut", vh_tok[i]);
+		vh_int("honest", strcmp(vh_tok[i], "honest") == 0);
+		vh_int("ret", ret); vh_int("err", err); vh_int("code", code2);
+		vh_end();
+	}
+	g1_free(t1); g2_free(t2);
+}
+
 /* ==================================================================== main */
 int main(int argc, char **argv) {
 	long start, idx = 0;
@@ -1090,6 +1378,13 @@ int main(int argc, char **argv) {
 	}
 	for (i = 0; i < EMAX; i++) { BN(ETD[i]); BN(EY[i]); }
 	for (i = 0; i < LMAX; i++) { BN(KV[i]); BN(LZ[i]); BN(MB[i]); EP(SAA[i]); EP(SBB[i]); G2(KZ[i]); }
+	BN(HM); BN(LCS); BN(ETA); BN(XF); EP(HSIG); EP(CH); EP(CRR); G2(CSSUM);
+	for (i = 0; i < HS; i++) {
+		BN(HSK[i]); BN(HMU[i]); BN(LPK[i]); G2(HPK[i]); BN(CD[i]); BN(CSK[i]); BN(LCZ[i]); BN(LCY[i]); BN(LCPK[i]);
+		EP(CSG[i]); EP(CAS[i]); EP(CCS[i]); G2(CZ[i]); G2(CY[i]); G2(CPK[i]);
+		for (j = 0; j < RLC_TERMS; j++) { gt_null(CHS[i][j]); gt_new(CHS[i][j]); }
+		for (j = 0; j < HL; j++) { BN(HMSG[i][j]); EP(HA[i][j]); BN(CX[i][j]); EP(CA[i][j]); EP(CC[i][j]); EP(CR[i][j]); G2(CSS[i][j]); }
+	}
 	for (i = 0; i < NRND; i++) BN(rnd[i]);
 	for (i = 0; i < NHM; i++) EP(hm_out[i]);
 	for (i = 0; i < NC; i++) { BN(bk_bn[i]); BN(bk_lg[i]); EP(bk_ep[i]); G2(bk_g2[i]); }
@@ -1113,6 +1408,8 @@ int main(int argc, char **argv) {
 		else if (!strcmp(op, "psb")) do_ps(1);
 		else if (!strcmp(op, "mpss")) do_mps(0);
 		else if (!strcmp(op, "mpsb")) do_mps(1);
+		else if (!strcmp(op, "mklhs")) do_mklhs();
+		else if (!strcmp(op, "cmlhs")) do_cmlhs();
 		else { fprintf(stderr, "unknown op %s\n", op); return 2; }
 		fflush(vh_out);
 		alarm(0);
